@@ -12,6 +12,10 @@ pub mod metainherit;
 pub mod tokvals;
 pub mod tablekern;
 pub mod glrspan;
+pub mod groupsym;
+// closure.rs (LRState::closure slice on a concrete grammar with symbolic kernel lookaheads) is
+// kept in the tree but not compiled: symbolic execution did not finish in 15 minutes; see
+// DESIGN.md §2.
 // forestdec.rs (C03 index decoding on the sliced gss.rs types) is kept in the tree but not
 // compiled: no template finishes within 15 minutes (recursive solutions() over symbolic
 // node pointers); see DESIGN.md §2.
